@@ -212,9 +212,13 @@ func HarnessC09Latest() {
 	}
 	g.AddTriples(ctx, triples(b1))
 	base, err0, _ := lookup(g, m, q, storage.DefaultLookup, b1)
+	latest0, fo0 := lo.LatestAnchor, lo.FilterOptions
 	got, err1, _ := lookup(g, m, q, lo, b1)
 	verif.Reach("looked-up")
 	verif.Assert(err0 == nil && err1 == nil, "C09/latest/lookup-succeeds")
+	// the options value is the caller's: once the lookup has returned it is as it was passed
+	// (also when nothing was selected), so that the next lookup through it means the same
+	verif.Assert(lo.LatestAnchor == latest0 && lo.FilterOptions == fo0 && lo.LowerAnchor == nil && lo.UpperAnchor == nil, "C09/latest/options-as-passed-after-return")
 	for _, x := range base {
 		if fixes[m][1] && x.pa != q.pa {
 			// the filter compares predicate text with the query predicate (known, see HarnessC09Options)
